@@ -99,9 +99,13 @@ Definition get_baseline_data (o : bopts) (data : list row) : result :=
       let sel := match start_limit with Some s => slice_from s before | None => before end in
       if all_missing sel then ErrNoData
       else
+        (* the gap warnings compare the data range with the limits *as moved* by the options
+           (transform.py passes start_limit / end_limit, not the requested start / end) *)
         Ok (blank_last sel)
-           (match b_end o with Some e => last_ts data e <? e | None => false end)
-           (match b_start o with Some s => s <? first_ts data s | None => false end)
+           (match b_end o, baseline_end_limit o before with
+            | Some e, Some el => last_ts data e <? el | _, _ => false end)
+           (match b_start o, start_limit with
+            | Some s, Some sl => sl <? first_ts data s | _, _ => false end)
     end
   end.
 
@@ -143,7 +147,9 @@ Definition get_reporting_data (o : ropts) (data : list row) : result :=
       if all_missing sel then ErrNoData
       else
         Ok (blank_last sel)
-           (match r_end o with Some e => last_ts data e <? e | None => false end)
-           (match r_start o with Some s => s <? first_ts data s | None => false end)
+           (match r_end o, end_limit with
+            | Some e, Some el => last_ts data e <? el | _, _ => false end)
+           (match r_start o, reporting_start_limit o after with
+            | Some s, Some sl => sl <? first_ts data s | _, _ => false end)
     end
   end.
